@@ -34,7 +34,7 @@ def shape_classes(t):
 
 def run_match(case):
     t = case["re"]
-    r = BR.mk(t)
+    r = BR.mk_shared(t) if case.get("shared") else BR.mk(t)
     S = sorted(RX.symbols(t) | set(case.get("extra", [])))
     L = min(G.word_bound(S, cap=40), case.get("L", 8))
     ws = G.all_words(S, L) + list(case.get("words", []))
@@ -47,13 +47,13 @@ def run_match(case):
         acc += want
     if BR.snap(r) != t:
         raise Fail("mutates_argument", "the expression was changed by matching")
-    cls = shape_classes(t)
-    return {"nt": bool(cls) and 0 < acc < len(ws), "cls": cls, "out": {"words": len(ws), "accepted": acc}}
+    cls = shape_classes(t) + (["shared_subterm_objects"] if case.get("shared") else [])
+    return {"nt": bool(shape_classes(t)) and 0 < acc < len(ws), "cls": cls, "out": {"words": len(ws), "accepted": acc}}
 
 
 def run_simplify(case):
     t = case["re"]
-    r = BR.mk(t)
+    r = BR.mk_shared(t) if case.get("shared") else BR.mk(t)
     res = lib(regexp_simplify, r)
     t2 = BR.snap(res)
     if BR.snap(r) != t:
@@ -77,13 +77,13 @@ def match_cases(draw, tier):
     S = sorted(RX.symbols(t)) or ["a"]
     extra = draw(st.sampled_from([[], [], [], ["z"]]))
     ws = draw(st.lists(st.text(alphabet=S + extra, max_size=8), max_size=2))
-    return {"re": t, "words": ws, "extra": extra, "L": 6}
+    return {"re": t, "words": ws, "extra": extra, "L": 6, "shared": draw(st.integers(0, 2)) == 0}
 
 
 @st.composite
 def simp_cases(draw, tier):
     syms = draw(st.sampled_from([["a"], ["a", "b"], ["a", "b", "c"], ["0", "1"], ["ab", "a"], ["ab", "ba", "b"], ["a", "_"], ["ε", "b"]]))
-    return {"re": draw(GR.trees(syms, max_leaves=12))}
+    return {"re": draw(GR.trees(syms, max_leaves=12)), "shared": draw(st.integers(0, 2)) == 0}
 
 
 def ex_match(tier):
